@@ -122,10 +122,11 @@ def node(kind, kids, extra):
     if kind == 1:
         return Pipe(*specs), (lambda t: _chain(refs, t))
     if kind == 2:
-        return {'p': specs[0], 'q': specs[1], 'r': specs[2]}, (lambda t: _dict(refs, ['p', 'q', 'r'], t, dict))
+        keys = ['p', 'q', 'r'][:len(specs)]
+        return dict(zip(keys, specs)), (lambda t: _dict(refs, keys, t, dict))
     if kind == 3:
-        return (OrderedDict([('z', specs[0]), ('a', specs[1]), ('m', specs[2])]),
-                (lambda t: _dict(refs, ['z', 'a', 'm'], t, OrderedDict)))
+        keys = ['z', 'a', 'm'][:len(specs)]
+        return OrderedDict(zip(keys, specs)), (lambda t: _dict(refs, keys, t, OrderedDict))
     if kind == 4:
         return MyDict([('p', specs[0]), ('q', specs[1])]), (lambda t: _dict(refs, ['p', 'q'], t, MyDict))
     if kind == 5:
@@ -219,9 +220,13 @@ def _allowed(kind, outcomes):
     return True
 
 
-def node_step(kind: int, k0: int, k1: int, k2: int, x: int, v0: int, v1: int, v2: int, thr: int) -> bool:
+VARIADIC = (0, 1, 2, 3, 8, 9, 11)       # kinds that accept any number of children
+
+
+def node_step(kind: int, k0: int, k1: int, k2: int, x: int, v0: int, v1: int, v2: int, thr: int, n: int) -> bool:
     start()
-    n = ARITY[kind]
+    if n < 0 or n > ARITY[kind]:
+        return True
     outs = [k0, k1, k2][:n]
     if not _allowed(kind, outs):
         return True
@@ -423,12 +428,17 @@ def obligations(tier):
     q = tier == 'quick'
     obs = []
     for kind in range(NKIND):
-        n = ARITY[kind]
-        fx = {'kind': kind}
-        for k in ['k0', 'k1', 'k2'][n:]:
-            fx[k] = 0
-        pre = ' and '.join('0 <= %s <= 4' % k for k in ['k0', 'k1', 'k2'][:n])
-        obs.append(Ob(node_step, fixed=fx, pre=pre, name='node_step_%s' % KIND_NAMES[kind], timeout=120))
+        arities = [ARITY[kind]]
+        if kind in VARIADIC:
+            lo = 0 if kind in (0, 1, 2, 3) else 1
+            arities = list(range(lo, ARITY[kind] + 1))
+        for n in arities:
+            fx = {'kind': kind, 'n': n}
+            for k in ['k0', 'k1', 'k2'][n:]:
+                fx[k] = 0
+            pre = ' and '.join('0 <= %s <= 4' % k for k in ['k0', 'k1', 'k2'][:n]) or 'True'
+            nm = 'node_step_%s' % KIND_NAMES[kind] + ('' if n == ARITY[kind] else '_n%d' % n)
+            obs.append(Ob(node_step, fixed=fx, pre=pre, name=nm, timeout=120))
     inner_pre_q = '0 <= i0 <= 3 and 0 <= i1 <= 3 and 0 <= i2 <= 3 and i0 != 2 and i1 != 2 and (o1 == 0 or o1 == 1 or o1 == 3)'
     inner_pre_t = '0 <= i0 <= 4 and 0 <= i1 <= 4 and 0 <= i2 <= 4 and 0 <= o1 <= 4'
     for outer in range(NKIND):
@@ -473,8 +483,8 @@ def obligations(tier):
                           name='chain_law_w%d_a%d' % (which, ka)))
     obs.append(Ob(ref_recursion, pre='0 <= depth <= 3', name='ref_recursion'))
     obs.append(Ob(callable_leaf, pre='0 <= which <= 6', name='callable_leaf'))
-    obs.append(Ob(node_step, fixed={'kind': 8}, pre='0 <= k0 <= 4 and 0 <= k1 <= 4 and 0 <= k2 <= 4', twin='node_err', name='node_step_coalesce'))
-    obs.append(Ob(node_step, fixed={'kind': 8}, pre='0 <= k0 <= 4 and 0 <= k1 <= 4 and 0 <= k2 <= 4', twin='node_ok', name='node_step_coalesce'))
+    obs.append(Ob(node_step, fixed={'kind': 8, 'n': 3}, pre='0 <= k0 <= 4 and 0 <= k1 <= 4 and 0 <= k2 <= 4', twin='node_err', name='node_step_coalesce'))
+    obs.append(Ob(node_step, fixed={'kind': 8, 'n': 3}, pre='0 <= k0 <= 4 and 0 <= k1 <= 4 and 0 <= k2 <= 4', twin='node_ok', name='node_step_coalesce'))
     obs.append(Ob(pair_nesting, fixed={'outer': 2, 'inner': 8}, pre='0 <= pos < 3 and ' + inner_pre_t, twin='pair', name='pair_coalesce_in_dict'))
     obs.append(Ob(real_leaves, fixed={'kind': 9, 'r2': 0}, pre='0 <= r0 < %d and 0 <= r1 < %d and len(xs) <= 2' % (NREAL, NREAL), twin='real', name='real_leaves_coalesce_default'))
     obs.append(Ob(chain_law, fixed={'which': 0, 'ka': 2}, pre='0 <= kb < %d and len(xs) <= 2' % NREAL, twin='law', name='chain_law'))
